@@ -40,6 +40,7 @@ func genEvSliding(ref core.CaseRef, r *rand.Rand) *evCase {
 }
 
 func runC08(ctx *core.Ctx) {
+	evCtx = ctx
 	ctx.SetRule("case = ((size,slide) incl. slide∤size, slide=size, slide>size; MAXOUTOFORDERNESS; 0-4 groups; timestamp pattern; feed mode) from PRNG(seed,index), closed by a sentinel; " +
 		"non-trivial = at least 3 intervals delivered and some row covered by 2+ intervals or out-of-order/late input; distinct by (SQL, rows, feed) hash")
 	ctx.Assume("single producer; block strategy", "a missing interval is declared only after a long engine-quiet wait")
